@@ -21,6 +21,9 @@ func Main(prop string, d *Driver) {
 	}
 	ctx := newCtx(prop, *seed, *tier, *out, *only, *corpus, d)
 	d.Run(ctx)
+	if ctx.Probing() {
+		os.Exit(0)
+	}
 	if err := ctx.finish(); err != nil {
 		fmt.Fprintf(os.Stderr, "harness: %v\n", err)
 		os.Exit(2)
